@@ -371,7 +371,11 @@ class Engine:
             return z3.BoolVal(len(v.t) > 0)
         if k == "set":
             x = z3.Const("x!tr", T.sort_of(t.args[0]))
-            return z3.Exists([x], z3.Select(self.set_arr(v.t, t.args[0]), x))
+            member = z3.Select(self.set_arr(v.t, t.args[0]), x)
+            if T.sort_name(t.args[0]) == "ref":
+                # members of a set of references are references (None only if the element type is optional)
+                member = z3.And(x >= 0 if t.args[0].kind == "opt" else x > 0, member)
+            return z3.Exists([x], member)
         if k == "ref":
             ci_truthy = None
             for c in self.classes.mro(t.cls):
@@ -1573,7 +1577,21 @@ class Engine:
                                 return "ALL", True
                             cal = self.reg[q]
                             if cal.modifies:
-                                return "ALL", True
+                                # a callee writing fields of its parameters: `<param>.<field>` -> that field map
+                                # (of any object: the actual argument is not tracked here); anything else -> ALL
+                                for m_ in cal.modifies:
+                                    parts = m_.strip().split(".")
+                                    pty = cal.params.get(parts[0]) if len(parts) == 2 else None
+                                    pt = ty(pty) if isinstance(pty, str) else pty
+                                    if pt is not None and pt.kind == "opt":
+                                        pt = pt.args[0]
+                                    if pt is None or pt.kind != "ref" or parts[1] == "*":
+                                        return "ALL", True
+                                    dcl = self.classes.field(pt.cls, parts[1])
+                                    if dcl is None:
+                                        return "ALL", True
+                                    add(f"{dcl[0]}.{parts[1]}", None)
+                                    add(f"{dcl[0]}.{parts[1]}#none", None)
                             continue
                         return "ALL", True
         except Exception:
